@@ -137,8 +137,12 @@ func c11Harness(maxRows int) Harness {
 			}
 			m.Tables = keep
 		}
-		b := renderFeed(m, presentation{})
-		key := fmt.Sprintf("zone=%s calendar=%d exceptions=%s", zone, calOpt, strings.Join(desc, ""))
+		pres := presentation{}
+		if combo.zone == "Japan" && combo.set == 0 && c.Free("every_file_begins_with_an_unknown_column_of_blank_cells", 2) == 1 {
+			pres.ExtraCol = 6 // a row is its cells, wherever the blank ones are
+		}
+		b := renderFeed(m, pres)
+		key := fmt.Sprintf("zone=%s calendar=%d exceptions=%s blankFirstColumn=%v", zone, calOpt, strings.Join(desc, ""), pres.ExtraCol == 6)
 		c.Input(hash64(string(b)), nRows > 0, func() string { return key + "\n" + m.text() })
 		c.SetMapRotation(c.Free("map_rotation", 3))
 		r, err, ok := parseStaticGuarded(c, b, gtfs.ParseStaticOptions{})
@@ -204,7 +208,7 @@ func init() {
 	register(&Check{
 		ID:    "C11",
 		Level: "model_checking",
-		Rule: "full product: calendar.txt {s1, empty, absent, s1+s2, s1 twice, s1 as a one-day service}; service ids beginning with #; x 0..2 (thorough 0..3) exception rows over 3 services x 7 dates (before/start/inside/end/after the s1 range, unparseable, blank) x 3 exception types x 15 (zone of the first agency, date set) combinations: New_York, London, unknown, Sydney, Lord_Howe, Japan, EST5EDT (names without a slash) with dates around the leap day 2024-02-29; New_York, Sydney, Lord_Howe with the southern DST switch days; New_York, Sydney, Japan with dates in the years 1, 1677, 2262 and 9999; America/Santiago and America/Havana (daylight saving time starts at local midnight) with their switch days x map iteration starts 0, 1, 2 at every library range; " +
+		Rule: "full product: calendar.txt {s1, empty, absent, s1+s2, s1 twice, s1 as a one-day service}; service ids beginning with #; x 0..2 (thorough 0..3) exception rows over 3 services x 7 dates (before/start/inside/end/after the s1 range, unparseable, blank) x 3 exception types x 15 (zone of the first agency, date set) combinations: New_York, London, unknown, Sydney, Lord_Howe, Japan, EST5EDT (names without a slash) with dates around the leap day 2024-02-29; New_York, Sydney, Lord_Howe with the southern DST switch days; New_York, Sydney, Japan with dates in the years 1, 1677, 2262 and 9999; America/Santiago and America/Havana (daylight saving time starts at local midnight) with their switch days x map iteration starts 0, 1, 2 at every library range; the Japan / January combination also with an unknown first column whose cells are blank in every file; " +
 			"non-trivial = distinct archives with at least one exception row; oracle = reference merge (all admissible readings) + direct invariants (unique ids, start <= exception <= end)",
 		Assumptions: []string{"two calendar rows with one id: either row may win", "an exception row with an unsupported type creates nothing, adds no date, and may or may not widen an existing range"},
 		Scenarios: func(tier string) []*Scenario {
